@@ -1042,7 +1042,7 @@ class _Sharded:
 
 def run(ctx):
     ctx.prove(["C17/Model.v", "C17/PBProofs.v", "C17/PBConv.v", "C17/Chain.v", "C17/ChainProofs.v", "C17/ChainConv.v", "C17/PBFifo.v", "C17/ChainFifo.v", "C17/ML.v", "C17/MLProofs.v", "C17/RS.v", "C17/Props.v"], allowed_axioms=(), trusted_base=TRUSTED)
-    n = ctx.n(40, 400)
+    n = ctx.n(40, 250)
     for fam in FAMILIES:
         fam.parallel = fam.parallel and not ctx.quick      # quick: a worker pool costs more than it saves
     stats = [run_family(_Sharded(ctx, fam.name), fam, n * 3 if fam.name == "mlk" else n) for fam in FAMILIES]
